@@ -366,3 +366,90 @@ def rule_dense_linop_agree(ctx):
                           where=f"{m.relpath}:{f.lineno}"))
     r.floor(n, 1, "functions building both dense and matrix-free effective operators")
     return r
+
+
+def rule_fill_fn_siblings(ctx):
+    r = RuleResult(
+        "fill-fn-siblings",
+        "MatrixProductState.from_fill_fn and MatrixProductOperator.from_fill_fn build an open chain over the *present* sites the same way: "
+        "the tests that decide whether a tensor gets a left / right bond are structurally identical in the two (position in the list of "
+        "present sites against the number of present sites) — a sibling that compares with the total length L leaves a dangling bond "
+        "whenever only a subset of sites is built",
+    )
+    CORE1D = "quimb.tensor.tn1d.core"
+    guards = {}
+    for qual in ("MatrixProductState.from_fill_fn", "MatrixProductOperator.from_fill_fn"):
+        f = ctx.prog.func(CORE1D, qual)
+        if f is None:
+            raise AnalysisError(f"fill-fn-siblings: {qual} not found")
+        gs = []
+        for st in ast.walk(f.node):
+            if isinstance(st, ast.If) and any(isinstance(c, ast.Call) and isinstance(c.func, ast.Attribute) and c.func.attr == "append" and c.args
+                                              and isinstance(c.args[0], ast.Subscript) for b in st.body for c in ast.walk(b)) \
+                    and not any(isinstance(x, ast.If) for b in st.body for x in ast.walk(b)):
+                gs.append(st.test)
+        guards[qual] = (f, gs)
+    (fa, ga), (fb, gb) = guards["MatrixProductState.from_fill_fn"], guards["MatrixProductOperator.from_fill_fn"]
+    if len(ga) < 2 or len(gb) < 2:
+        raise AnalysisError("fill-fn-siblings: bond guards not found in both from_fill_fn constructors")
+    def norm(t, f):
+        """structure of the test with the function's own locals abstracted (parameters keep their names)"""
+        import copy as _copy
+        t2 = _copy.deepcopy(t)
+        order = {}
+        for y in ast.walk(t2):
+            if isinstance(y, ast.Name) and y.id not in f.params:
+                y.id = order.setdefault(y.id, f"v{len(order)}")
+        return ast.dump(t2)
+
+    da, db = sorted(norm(t, fa) for t in ga), sorted(norm(t, fb) for t in gb)
+    if da == db:
+        r.ok("from_fill_fn[MPS/MPO]", sample={"bond guards": [src_of(t) for t in ga]})
+    else:
+        odd = next((t for t in gb if norm(t, fb) not in da), gb[0])
+        r.bad(Finding("fill-fn-siblings", "MatrixProductOperator.from_fill_fn",
+                      f"decides a bond with `{src_of(odd)}` while the MPS constructor uses {[src_of(t) for t in ga]}: with a subset of sites the chain is not closed "
+                      "at the last present site", where=f"{fb.module.relpath}:{odd.lineno}", operand="bond-guard"))
+    return r
+
+
+def rule_length_delivered(ctx):
+    r = RuleResult(
+        "length-delivered",
+        "a generator of tensor_builder.py that accepts both the total length `L` and a subset `sites` hands `L` to the MPS / MPO constructor "
+        "it calls — by keyword, positionally, or through the option dict it expands into the call — also on the `sites` path: otherwise "
+        "the result's length is inferred from the sites present and the requested L is silently lost",
+    )
+    m = ctx.prog.modules.get("quimb.tensor.tensor_builder")
+    if m is None:
+        raise AnalysisError("length-delivered: quimb.tensor.tensor_builder not found")
+    CTORS = {"MatrixProductState", "MatrixProductOperator", "from_fill_fn", "from_dense"}
+    n = 0
+    for f in m.all_functions:
+        if f.parent is not None or f.is_alias or isinstance(f.node, ast.Lambda) or not {"L", "sites"} <= set(f.params):
+            continue
+        calls = [c for c in ast.walk(f.node) if isinstance(c, ast.Call) and (dotted(c.func) or "").split(".")[-1] in CTORS]
+        if not calls:
+            continue
+        for c in calls:
+            n += 1
+            q = f"{f.qualname}->{(dotted(c.func) or '').split('.')[-1]}"
+            ok = any(kw.arg == "L" for kw in c.keywords) or any(isinstance(a, ast.Name) and a.id == "L" for a in c.args)
+            if not ok:
+                for kw in c.keywords:
+                    if kw.arg is None and isinstance(kw.value, ast.Name):
+                        d = kw.value.id
+                        # the expanded dict receives "L" somewhere: d["L"] = ..., d.setdefault("L", ...), or it is the **kwargs the caller fills
+                        stores = any(isinstance(a, ast.Assign) and any(isinstance(t, ast.Subscript) and isinstance(t.value, ast.Name) and t.value.id == d and const_value(t.slice, None) == "L"
+                                                                         for t in a.targets) for a in ast.walk(f.node)) \
+                            or any(isinstance(x, ast.Call) and isinstance(x.func, ast.Attribute) and x.func.attr == "setdefault" and isinstance(x.func.value, ast.Name) and x.func.value.id == d
+                                   and x.args and const_value(x.args[0], None) == "L" for x in ast.walk(f.node))
+                        if stores:
+                            ok = True
+            if ok:
+                r.ok(q, sample={"generator": f.qualname, "constructor": src_of(c.func), "L": "delivered"})
+            else:
+                r.bad(Finding("length-delivered", f.qualname, f"`{src_of(c)[:60]}` builds the result without the requested `L`: with `sites` given the length is inferred "
+                                                             "from the sites present", where=f"{m.relpath}:{c.lineno}", operand="L"))
+    r.floor(n, 1, "constructor calls in generators accepting L and sites")
+    return r
